@@ -41,7 +41,7 @@ func (s Spec) nameOf(i int) string {
 	return modName(i)
 }
 
-// expectModules: every node is in the module set exactly once; local kinds as local modules without
+// expectModules: every node of the workspace is in the module set exactly once; local kinds as local modules without
 // commit, provider-only kinds at their newest commit; targets per targetNodes.
 func (s Spec) expectModules(t Target) []ModObs {
 	isTarget := map[int]bool{}
@@ -50,6 +50,9 @@ func (s Spec) expectModules(t Target) []ModObs {
 	}
 	var out []ModObs
 	for i := range s.Kinds {
+		if !s.present(i) {
+			continue // a provider-only module nobody pins is not part of the workspace
+		}
 		out = append(out, ModObs{ID: s.modID(i), Local: s.Kinds[i].local(), Target: isTarget[i], Commit: s.commitOf(i)})
 	}
 	sort.Slice(out, func(i, j int) bool { return out[i].ID < out[j].ID })
